@@ -366,7 +366,7 @@ SPECS["C13"] = dict(
     assumptions=["run-to-block scheduling of the real goroutines; scheduling points only at Keep writes and blocking operations", "fake Keep whose writes block until released by the harness, in solver-chosen order and with solver-chosen outcome"],
     runs=[
         dict(name="async", pkg="sdk/go/arvados", harness=["arvados/c13_async.go", "arvados/fskeep.go"], entry="GosymH_C13_async", replay="engine",
-             params=dict(quick=dict(ops=2), thorough=dict(ops=3)), witnesses=["done", "writes-still-pending-at-save"]),
+             params=dict(quick=dict(ops=2), thorough=dict(ops=3)), witnesses=["done", "writes-still-pending-at-save"], max_paths=2000000, timeout=dict(thorough=2400)),
         dict(name="flush", pkg="sdk/go/arvados", harness=["arvados/c13_async.go", "arvados/fskeep.go"], entry="GosymH_C13_flush", replay="engine",
              params=dict(quick=dict(flushes=1), thorough=dict(flushes=2)), witnesses=["done", "flush-write-in-flight"]),
     ],
